@@ -13,7 +13,12 @@ CLAIM = dict(
     text="tile, repeat, roll, take, compress, pad, resize, expand, sliding_window, concatenate, stack, hstack, vstack, dstack, column_stack, split, diagonal, diagflat, tril, triu, where, arange, linspace, eye, identity, tri, full/zeros/ones(_like) are executed on dynamic ndarrays carrying unique labels (distinct label ranges per operand, fill values outside every label range) for all source shapes of dim 1..3 extents 1..3 (thorough: dim 1..4 extents 1..4 plus sampled larger) and the quantifier's argument grids (reps/repeats 1..3, shifts in [-2n,2n] single and multi axis, pad widths 0..2 per side, index lists with negative and repeated entries, every valid positive/negative axis and None, integer and dyadic-real generator grids); shape, element type and every element read lazily through view(i...) are compared with the reference. ASan/UBSan/libstdc++ assertions and the bounds hooks watch the same executions. Held-on-observed.",
     note="Trusted: NumPy as the reference; the pad/resize/expand models (32 shipped vectors of the repository reproduce them); the harness' own odometer for element reads. Only run-time argument kinds (nmtools_list<int>, int, None) are exercised - other kinds are C09's business; invalid arguments are C15's.",
     ref="DESIGN.md 4/C04")
-HARNESS = ["c04_a", "c04_b", "c04_c", "c04_d", "c04_e", "c04_f", "c04_g"]
+HARNESS = ["c04_a", "c04_b", "c04_c", "c04_d", "c04_e", "c04_f", "c04_g", "c04_ct"]
+
+# ops of harness/c04_ct.cpp: the same view with the axis given as a COMPILE-TIME constant (meta::ct_v<k>), on a source of compile-time
+# dimension 3 (kind 0) and on a dynamic source (kind 1) -> reference / argument class of the run-time op
+CT_ALIAS = {"take_ct": "take", "repeat_ct": "repeat", "roll_ct": "roll", "concatenate_ct": "concatenate", "diagonal_ct": "diagonal"}
+CT_DIAG_PAIRS = [(0, 1), (1, 0), (0, 2), (2, 0), (1, 2), (-1, -2), (-2, -1), (0, -1), (-1, 0), (-3, -1)]
 TARGETS_QUICK = [(h, "asan") for h in HARNESS]
 
 BASE_A, BASE_B, BASE_C = 100, 500, 900
@@ -362,6 +367,28 @@ def gen_cases(rng, tier):
             for k in range(-n - 1, m + 2):
                 add("eye", "%d %d %d" % (n, m, k), N=n, M=m, k=k)
                 add("tri", "%d %d %d" % (n, m, k), N=n, M=m, k=k)
+    # ---- compile-time axes: the constant-index branches of take / repeat / roll / concatenate / diagonal
+    ct_shapes = [[2, 3, 4], [3, 2, 2], [1, 3, 2]] if quick else [list(t) for t in itertools.product((1, 2, 3), repeat=3)] + [[2, 3, 4], [4, 2, 3]]
+    for s in ct_shapes:
+        fs = fmt_vec(s)
+        for kind in (0, 1):
+            for ax in range(-3, 3):
+                n = s[ax]
+                idx = [rng.randrange(-n, n) for _ in range(rng.randint(1, 3))]
+                add("take_ct", "%d %s %s %d" % (kind, fs, fmt_vec(idx), ax), shape=s, indices=idx, axis=ax, kind=kind)
+                r = rng.randint(1, 3)
+                add("repeat_ct", "%d %s %d %d" % (kind, fs, r, ax), shape=s, repeats=r, axis=ax, kind=kind)
+                sh = rng.randint(-2 * n, 2 * n)
+                add("roll_ct", "%d %s %d %d" % (kind, fs, sh, ax), shape=s, shift=sh, axis=ax, kind=kind)
+            for ax in range(0, 3):
+                s2 = list(s)
+                s2[ax] = rng.randint(1, 3)
+                add("concatenate_ct", "%d %s %s %d" % (kind, fs, fmt_vec(s2), ax), shape=s, shape2=s2, axis=ax, kind=kind)
+            for a1, a2 in CT_DIAG_PAIRS:
+                n1, n2 = s[a1], s[a2]
+                offs = [o for o in range(-n1 + 1, n2)]
+                for off in (offs if not quick else some(offs, 2)):
+                    add("diagonal_ct", "%d %s %d %d %d" % (kind, fs, off, a1, a2), shape=s, offset=off, axis1=a1, axis2=a2, kind=kind)
     return cases
 
 
@@ -374,6 +401,8 @@ def _ax(a):
 def expected(m):
     """reference result of a valid case as a numpy array (raises for arguments NumPy rejects)."""
     op = m["op"]
+    if op in CT_ALIAS:
+        return expected(dict(m, op=CT_ALIAS[op]))
     a = labels(m["shape"]) if "shape" in m else None
     if op == "tile":
         return np.tile(a, m["reps"])
@@ -468,6 +497,8 @@ EXPECT_TAG = {"ones": "f4", "ones_like": "f4", "arange3f": "f4", "linspace_f": "
 def argclass(m):
     """finite partition of the argument space, per operation (a function of the cause, never of sampled values)"""
     op = m["op"]
+    if op in CT_ALIAS:
+        return "%s:%s" % ("fixed_dim" if m.get("kind") == 0 else "dynamic", argclass(dict(m, op=CT_ALIAS[op])))
     if op == "tile":
         d, L = len(m["shape"]), len(m["reps"])
         return "replen_" + ("eq" if L == d else ("lt" if L < d else "gt"))
